@@ -5,6 +5,7 @@ name=$1; prop=$2; patch=$3
 wt=/tmp/mt_$name
 git -C /repo worktree remove --force $wt >/dev/null 2>&1; rm -rf $wt
 git -C /repo worktree add -q --detach $wt HEAD || exit 2
+cp /repo/Cargo.lock $wt/Cargo.lock 2>/dev/null  # untracked in /repo, needed by the Raft scratch crate
 if ! git -C $wt apply $patch; then echo "$name: PATCH DOES NOT APPLY"; git -C /repo worktree remove --force $wt; exit 2; fi
 cd /verif
 VERIF_REPO=$wt ./check $prop --jobs ${JOBS:-4} > /tmp/me/mt_$name.log 2>&1
